@@ -253,6 +253,14 @@ def run(res, b, tier, seed):
         nest = "x := 1\n" + "".join("\t" * d + "if x == %d {\n" % d for d in range(n_f)) + "\t" * n_f + "print(x)\n" + "".join("\t" * d + "}\n" for d in reversed(range(n_f)))
         add("deep-nesting", {"a.tsh": nest.encode()})
         add("long-expression", {"a.tsh": ("x := " + " + ".join(["1"] * (n_f * 20)) + "\nprint(x)\n").encode()})
+        # nested round brackets, bare and with an operator at every level: DEPTH must not cost more than linear time (round 14: C13-G, a type
+        # query that asked its child twice - 2^depth)
+        add("deep-brackets", {"a.tsh": ("x := " + "(" * n_f + "1" + ")" * n_f + "\nprint(x)\n").encode()})
+        nested = "a"
+        for d in range(n_f):
+            nested = "(" + nested + (" + 1" if d % 2 else " * 2") + ")"
+        add("deep-brackets", {"a.tsh": ("a := 1\nx := " + nested + "\nprint(x)\n").encode()})
+        add("deep-brackets", {"a.tsh": ("t := true\nif " + "(" * n_f + "t" + ")" * n_f + " {\n\tprint(1)\n}\nprint(len(" + "(" * n_f + "\"ab\"" + ")" * n_f + "))\n").encode()})
     # arithmetic on CONSTANTS, the degenerate values included (a zero divisor written as a literal or as a constant expression, the extreme
     # 32 / 64-bit values): whatever a stage does with constants at transpile time, it must not crash on them (round 13: C13-F, a constant
     # folder in the parser that divides in Go)
